@@ -73,7 +73,9 @@ def classify(out):
 
 def proj(conn):
     s = conn.session
-    return bool(conn.closed), ("none" if s is None else ("resumable" if s.resumable else "dead"))
+    # what governs reuse is Session.valid() (handshakeClient* offers a session iff it is valid); the flag alone is
+    # not the whole story for sessions that hold tickets
+    return bool(conn.closed), ("none" if s is None else ("resumable" if (s.resumable or s.valid()) else "dead"))
 
 
 def call_event(api, envname, out, conn, arrive=0, n=0, wantdesc=0, match=True):
@@ -148,7 +150,14 @@ def data_history(job):
     from tlslite.constants import AlertDescription, AlertLevel
     idx, ver, kex, role, opts, pre, term = job
     try:
-        f = flavour(ver, kex)
+        # every other TLS 1.3 / TLS 1.2 history runs against a server that issues session tickets, so that the
+        # client's session holds tickets when the connection ends
+        if idx % 2 == 0 and ver == 4:
+            f = flavour(ver, kex, tickets13=1)
+        elif idx % 2 == 0 and ver == 3:
+            f = flavour(ver, kex, ticket=True)
+        else:
+            f = flavour(ver, kex)
         sc = Scenario(f, "c17d-%d" % idx)
         p = sc.pair
         cgen, sgen = sc.gens()
@@ -165,6 +174,23 @@ def data_history(job):
         if not (co.ok and so.ok):
             info["problem"] = "handshake failed"
             return ev, info
+        if pre == "reuse":
+            # TLS is shut down in order on both sides while the socket stays open (closeSocket=False), then a new TLS
+            # session is negotiated on the same two objects
+            from ..endpoints import _close_gen
+            keep = (eut.closeSocket, peer.closeSocket)
+            eut.closeSocket = peer.closeSocket = False
+            tcl = Task(role, _close_gen(eut), es)
+            tpr = Task(pname, _read_gen(peer, 10, 1), ps)
+            run_tasks([tcl, tpr], p.pipes, max_steps=20000)
+            ev.append(call_event("close", "close_notify", tcl.out, eut))
+            eut.closeSocket, peer.closeSocket = keep
+            cgen2, sgen2 = sc.gens()
+            st2, co2, so2 = p.run(cgen2, sgen2)
+            ev.append(call_event("handshake", "ok", co2 if role == "c" else so2, eut))
+            if not (co2.ok and so2.ok):
+                info["problem"] = "second handshake on the reused connection failed: %s / %s" % (co2.describe(), so2.describe())
+                return ev, info
         # a second handshake call on the open connection
         if pre == "rehs":
             g = eut.handshakeClientCert(async_=True) if role == "c" else eut.handshakeServerAsync()
@@ -172,7 +198,7 @@ def data_history(job):
             ev.append(call_event("handshake", "ok", o, eut))
         if pre == "rehs":
             term = "none/none"
-        if pre == "rw":
+        if pre in ("rw", "reuse"):
             o = p.write(pname, b"hello")
             o = p.op(role, _read_gen(eut, None, 5))
             ev.append(call_event("read", "data", o, eut, arrive=5, n=len(o.value or b""), match=(o.value == b"hello")))
@@ -315,7 +341,7 @@ def run(tier):
     for ver, kex in ((1, "rsa"), (3, "ecdhe_rsa"), (4, "tls13")):
         for role in ("c", "s"):
             for opts in ((True, False), (True, True), (False, False), (False, True)):
-                for pre in ("none", "rw", "rehs"):
+                for pre in ("none", "rw", "rehs", "reuse"):
                     for term in TERMS:
                         djobs.append((idx, ver, kex, role, opts, pre, term))
                         idx += 1
